@@ -190,8 +190,12 @@ def gen_step(model, rels: list[Relation], rng: random.Random, weights: dict[str,
             bad = rng.random() < 0.15
             if bad:
                 kw["no_such_attribute_xyz"] = 1
-            return Step("create", rel, {"kw": {k: v for k, v in kw.items()}, "bad": bad},
-                        lambda lst=lst, kw=kw: lst.create(**kw))
+            hint = ()
+            if rng.random() < 0.1:   # a type hint that matches no class
+                hint = ("NoSuchClassXyz",)
+                bad = True
+            return Step("create", rel, {"kw": {k: v for k, v in kw.items()}, "bad": bad, "hint": list(hint)},
+                        lambda lst=lst, kw=kw, hint=hint: lst.create(*hint, **kw))
         if op == "create_clash" and rel.contain:
             objs = ol.all_objects(model)
             clash = rng.choice(objs).uuid
